@@ -34,6 +34,18 @@ CLAIMED = {
     "C15": ("bounded symbolic model checking of the notation family in two layers: the L-parse lemmas run the real Parser.Parse from every state an accepted prefix can leave, on rows whose name bytes are symbolic, and z3 decides that every spelling of a row yields the same (depth, text) resp. the right error class; an end-to-end harness (real parser + real tree code, no stub) compares the canonical spelling with every member of the notation family on small forests",
             "CRLF / final newline are bufio.Scanner's contract (trusted); heading names assumed free of surrounding blanks; name length <= 3 bytes in the lemmas; outputs other than text rely on C01-C05 (same generator)",
             "DESIGN.md 5 C15, 4.2"),
+    "C06": ("bounded symbolic model checking of the mkdir code against a file-system model executed symbolically next to it: for every forest up to the bound, opaque names and extensions, every pre-state of the family and the modelled OS refusals, z3 decides that the entries created are exactly the node paths with kinds by the file rule, that nothing else changes, that a pre-existing root gives ErrExistPath with the state unchanged and that a refused operation is never reported as success",
+            "the file-system model (harness/gtree/vfs_sym.go) is the trusted reading of os.Stat/MkdirAll/Create; path contracts; the native replays run the same harness against the real OS in a jail",
+            "DESIGN.md 5 C06"),
+    "C07": ("bounded symbolic model checking at byte level: every name byte of a 2-3 node tree is a solver variable, the real path.Join/Clean, filepath.Join, fs.ValidPath and validation code is executed on them, and z3 decides that every path handed to a mutating os call is lexically inside the target, that a name which is not a single valid path element is rejected, and that nothing is created in that case, on all five mkdir/dry-run routes",
+            "lexical confinement (symlinks outside the claim); ASCII names of <= 4 bytes, <= 3 nodes; os calls are recorders",
+            "DESIGN.md 5 C07"),
+    "C08": ("bounded symbolic model checking of the verifier against the file-system model: for every forest up to the bound and every directory state of the family (present subsets, files, extras, strict or not) z3 decides verdict, soundness and exactness of both reported lists for the first differing root, the public error text and read-only-ness; and that a tree just made by the real Mkdir code verifies strictly",
+            "file-system model incl. the fs.WalkDir contract is trusted (exercised natively); bound N=3 for the state-space job",
+            "DESIGN.md 5 C08"),
+    "C09": ("bounded symbolic model checking of the three dry-run routes against the real mkdir code in one harness: no mutation, report text equals tree text plus per-root counts, and the counts equal what the real Mkdir then creates in the same model; names-based rejection equivalence is decided at byte level under C07",
+            "file-system model, color/bufio stubs; massive mode under C10",
+            "DESIGN.md 5 C09"),
 }
 
 NOT_YET = "check under construction in this session (engine built first; see DESIGN.md 5)"
